@@ -97,6 +97,12 @@ func (g *Gateway) newSubscriptionEntry(id string, ctx *planner.PlanningContext) 
 				}
 			}
 
+			// nothing to fetch for this event, f.e. the parent object is null or an empty list
+			if len(newRootSteps) == 0 {
+				plan.ScrubFields.Clean(initialResult)
+				return initialResult, nil
+			}
+
 			result, err := g.executor.Execute(&executor.ExecutionContext{
 				QueryPlan: &planner.QueryPlan{
 					RootSteps:   newRootSteps,
